@@ -15,6 +15,8 @@ import XzVerif.Lemmas.XzFlipWhole
 import XzVerif.Lemmas.C16
 import XzVerif.Lemmas.XzStd
 import XzVerif.Lemmas.XzConcatFlip
+import XzVerif.Lemmas.CrcBurst
+import XzVerif.Props.C16
 
 namespace XzVerif.C05
 open XzVerif XzVerif.Container XzVerif.XzDecode XzVerif.CrcFlip
@@ -148,6 +150,33 @@ theorem crc32_single_bit (m : List UInt8) (i : Nat) (hi : i < 8 * m.length) (ini
 /-- CRC64 detects every single-bit error. -/
 theorem crc64_single_bit (m : List UInt8) (i : Nat) (hi : i < 8 * m.length) (init : BitVec 64) :
     Crc.crc64Ref (flipBit m i) init ≠ Crc.crc64Ref m init := crc64Ref_flip_ne m i hi init
+
+/-- **crc32_burst_detected**: CRC32 detects every error burst confined to 32 consecutive bits.  The two messages differ only
+    inside the window `x`/`y`; the bytewise xor of the windows, read as a little-endian number, is the error pattern `E < 2^32`
+    shifted by `p` bit positions (bit order = the order in which the reflected CRC consumes the bits: LSB of each byte first).
+    (A burst of length ≤ 32 is x^p·e(x) with deg e < 32; it cannot be a multiple of the degree-32 polynomial.) -/
+theorem crc32_burst_detected (a t x y : List UInt8) (hlen : x.length = y.length) (p E : Nat) (hE0 : E ≠ 0) (hE : E < 2 ^ 32)
+    (hxor : Crc.leN (List.zipWith (· ^^^ ·) x y) = 2 ^ p * E) (init : BitVec 32) :
+    Crc.crc32Ref (a ++ x ++ t) init ≠ Crc.crc32Ref (a ++ y ++ t) init :=
+  Crc.crc32_burst a t x y hlen p E hE0 hE hxor init
+
+/-- CRC64 detects every error burst confined to 64 consecutive bits. -/
+theorem crc64_burst_detected (a t x y : List UInt8) (hlen : x.length = y.length) (p E : Nat) (hE0 : E ≠ 0) (hE : E < 2 ^ 64)
+    (hxor : Crc.leN (List.zipWith (· ^^^ ·) x y) = 2 ^ p * E) (init : BitVec 64) :
+    Crc.crc64Ref (a ++ x ++ t) init ≠ Crc.crc64Ref (a ++ y ++ t) init :=
+  Crc.crc64_burst a t x y hlen p E hE0 hE hxor init
+
+/-- Positional form: two different messages of equal length that agree outside the five bytes starting at byte `s / 8`, the
+    difference inside that window being a pattern of at most 32 bits starting at bit `s`, have different CRC32s. -/
+theorem crc32_burst_detected_at (m m' : List UInt8) (hlen : m.length = m'.length) (hne : m ≠ m') (s E : Nat) (hE : E < 2 ^ 32)
+    (hout : ∀ i, (i < s / 8 ∨ s / 8 + 5 ≤ i) → m[i]? = m'[i]?)
+    (hwin : Crc.leN (List.zipWith (· ^^^ ·) ((m.drop (s / 8)).take 5) ((m'.drop (s / 8)).take 5)) = 2 ^ (s % 8) * E)
+    (init : BitVec 32) : Crc.crc32Ref m init ≠ Crc.crc32Ref m' init :=
+  Crc.crc32_burst_at' m m' hlen hne s E hE hout hwin init
+
+/-- a 3-bit burst across a byte boundary (bits 15..16 of a 4-byte message): the hypotheses are satisfiable -/
+example : Crc.crc32Ref [0x11, 0x22, 0x33, 0x44] 0 ≠ Crc.crc32Ref [0x11, 0xA2, 0x32, 0x44] 0 :=
+  crc32_burst_detected [0x11] [0x44] [0x22, 0x33] [0xA2, 0x32] rfl 7 3 (by decide) (by decide) (by decide +kernel) 0
 
 /-- **header_bitflip_rejected (Stream Header, whole file).**  If the Stream Header of `b` is valid, flipping any one of
     its 96 bits makes `lzma_stream_decoder` (any flags) reject the file. -/
@@ -407,6 +436,98 @@ theorem concat_block_field_bit (E : Env) (hloc : PayloadLocal E) (hbd : PayloadB
 theorem header_bitflip_rejected_std (fl : Flags) (b : List UInt8) (cap : Nat) (i : Nat)
     (hbit : XzBit XzEnv.stdEnv fl true b cap i) : (xzDecode XzEnv.stdEnv fl (flipBit b i) cap).ret ≠ .streamEnd :=
   header_bitflip_rejected_partial XzEnv.stdEnv payload_local_std payload_bounded_std fl b cap i hbit
+
+/-! ## Truncation of .lzma and .lz files
+
+  For both legacy formats a decoder that has answered LZMA_STREAM_END on `b` having consumed `n` bytes answers something else on
+  every proper prefix of those `n` bytes: a file that ends inside the stream is never reported as complete.  Parametric in the
+  LZMA1 payload decoder `P` (which must be causal and must not claim more than it was given); `*_model` instantiates it with
+  the concrete model `Lzma.lzmaDecode` of Model/Lzma.lean, for which both properties are proved (Lemmas/LzmaCausal*.lean).
+  For .lzma this covers both ways a stream ends: end marker (unknown size) and known uncompressed size (with or without marker).
+  With LZMA_CONCATENATED a .lz prefix that ends exactly at a member boundary IS a complete file; that case is excluded. -/
+
+theorem alone_consumed_le (P : Alone.Payload) (hb : ∀ o r, (P o r).consumed ≤ r.length) (cfg : Alone.Cfg) (inp : List UInt8)
+    (h : (Alone.aloneDecode P cfg inp).ret = .streamEnd) : (Alone.aloneDecode P cfg inp).consumed ≤ inp.length := by
+  unfold Alone.aloneDecode at h ⊢
+  cases inp with
+  | nil => simp [Alone.needMore] at h
+  | cons p r1 =>
+    simp only [] at h ⊢
+    cases hl : Alone.lclppbDecode p.toNat with
+    | none => rw [hl] at h; simp [Alone.fail] at h
+    | some t =>
+      obtain ⟨lc, lp, pb⟩ := t
+      rw [hl] at h
+      simp only [] at h ⊢
+      by_cases h4 : r1.length < 4
+      · rw [if_pos h4] at h; simp [Alone.needMore] at h
+      rw [if_neg h4] at h ⊢
+      by_cases hpk : (cfg.picky && !Alone.pickyDictOk (Alone.leNat (r1.take 4))) = true
+      · rw [if_pos hpk] at h; simp [Alone.fail] at h
+      rw [if_neg hpk] at h ⊢
+      by_cases h8 : (r1.drop 4).length < 8
+      · rw [if_pos h8] at h; simp [Alone.needMore] at h
+      rw [if_neg h8] at h ⊢
+      by_cases hps : (cfg.picky && !Alone.pickySizeOk (Alone.leNat ((r1.drop 4).take 8))) = true
+      · rw [if_pos hps] at h; simp [Alone.fail] at h
+      rw [if_neg hps] at h ⊢
+      by_cases hm : cfg.memK + Alone.leNat (r1.take 4) > Alone.effMemlimit cfg.memlimit
+      · rw [if_pos hm] at h; simp at h
+      rw [if_neg hm] at h ⊢
+      have := hb (Alone.aloneOpts lc lp pb (Alone.leNat (r1.take 4)) (Alone.leNat ((r1.drop 4).take 8))) ((r1.drop 4).drop 8)
+      simp only [List.length_drop, List.length_cons] at this h4 h8 ⊢
+      omega
+
+/-- **prefix_free for .lzma** (`lzma_alone_decoder`, also inside the auto decoder). -/
+theorem lzma_prefix_free (P : Alone.Payload) (hP : C16L.Causal P) (hb : ∀ o r, (P o r).consumed ≤ r.length) (cfg : Alone.Cfg)
+    (b p : List UInt8) (hr : (Alone.aloneDecode P cfg b).ret = .streamEnd) (hp : p <+: b)
+    (hlt : p.length < (Alone.aloneDecode P cfg b).consumed) : (Alone.aloneDecode P cfg p).ret ≠ .streamEnd := by
+  intro hc
+  obtain ⟨t, rfl⟩ := hp
+  have e := C16L.alone_stops P hP cfg p t hc
+  rw [e] at hlt
+  have := alone_consumed_le P hb cfg p hc
+  omega
+
+/-- the same as truncation: cutting an accepted .lzma file anywhere inside the consumed bytes is not accepted -/
+theorem lzma_truncation_is_never_stream_end (P : Alone.Payload) (hP : C16L.Causal P) (hb : ∀ o r, (P o r).consumed ≤ r.length)
+    (cfg : Alone.Cfg) (b : List UInt8) (hr : (Alone.aloneDecode P cfg b).ret = .streamEnd) (n : Nat)
+    (hn : n < (Alone.aloneDecode P cfg b).consumed) : (Alone.aloneDecode P cfg (b.take n)).ret ≠ .streamEnd :=
+  lzma_prefix_free P hP hb cfg b (b.take n) hr (List.take_prefix n b) (by rw [List.length_take]; omega)
+
+/-- **prefix_free for .lz** (`lzma_lzip_decoder` without LZMA_CONCATENATED). -/
+theorem lzip_prefix_free (P : Alone.Payload) (hP : C16L.Causal P) (cfg : Lzip.Cfg) (hc : cfg.concatenated = false)
+    (b p : List UInt8) (hr : (Lzip.lzipDecode P cfg b).ret = .streamEnd) (hp : p <+: b)
+    (hlt : p.length < (Lzip.lzipDecode P cfg b).consumed) : (Lzip.lzipDecode P cfg p).ret ≠ .streamEnd := by
+  intro hcp
+  obtain ⟨t, rfl⟩ := hp
+  have e := C16L.lzip_stops P hP cfg hc p t hcp
+  rw [e] at hlt
+  rcases C16L.lzipDecode_single P cfg hc p with ⟨o, m, hv, he⟩ | ⟨_, hne⟩
+  · have := (C16L.validMember_bounds hv).2
+    rw [he] at hlt
+    simp only [] at hlt
+    omega
+  · exact hne hcp
+
+theorem lzip_truncation_is_never_stream_end (P : Alone.Payload) (hP : C16L.Causal P) (cfg : Lzip.Cfg)
+    (hc : cfg.concatenated = false) (b : List UInt8) (hr : (Lzip.lzipDecode P cfg b).ret = .streamEnd) (n : Nat)
+    (hn : n < (Lzip.lzipDecode P cfg b).consumed) : (Lzip.lzipDecode P cfg (b.take n)).ret ≠ .streamEnd :=
+  lzip_prefix_free P hP cfg hc b (b.take n) hr (List.take_prefix n b) (by rw [List.length_take]; omega)
+
+/-- **.lzma truncation for the concrete decoder model**: no hypotheses left. -/
+theorem lzma_prefix_free_model (cfg : Alone.Cfg) (b p : List UInt8)
+    (hr : (Alone.aloneDecode C16.lzmaPayload cfg b).ret = .streamEnd) (hp : p <+: b)
+    (hlt : p.length < (Alone.aloneDecode C16.lzmaPayload cfg b).consumed) :
+    (Alone.aloneDecode C16.lzmaPayload cfg p).ret ≠ .streamEnd :=
+  lzma_prefix_free C16.lzmaPayload C16.lzma_payload_causal C16.lzma_payload_bounded cfg b p hr hp hlt
+
+/-- **.lz truncation for the concrete decoder model** (no LZMA_CONCATENATED). -/
+theorem lzip_prefix_free_model (cfg : Lzip.Cfg) (hc : cfg.concatenated = false) (b p : List UInt8)
+    (hr : (Lzip.lzipDecode C16.lzmaPayload cfg b).ret = .streamEnd) (hp : p <+: b)
+    (hlt : p.length < (Lzip.lzipDecode C16.lzmaPayload cfg b).consumed) :
+    (Lzip.lzipDecode C16.lzmaPayload cfg p).ret ≠ .streamEnd :=
+  lzip_prefix_free C16.lzmaPayload C16.lzma_payload_causal cfg hc b p hr hp hlt
 
 /-! ## .lz -/
 
